@@ -119,3 +119,67 @@ Theorem irs_in_range_sound n l : irs_in_range n l = true -> lits_in_range n (to_
 Proof.
   unfold irs_in_range. intros H. apply andb_true_iff in H as [H1 H2]. apply to_cnf_in_range; [assumption|lia].
 Qed.
+
+(* ---------- the pseudo-Boolean rendering ---------- *)
+Definition terms_from (ls : list Z) (ts : list (Z * Z)) : Prop := forall t, In t ts -> In (snd t) ls \/ In (- snd t) ls.
+
+Lemma norm_coeffs_from ls : forall ts v ts' v', terms_from ls ts -> norm_coeffs ts v = (ts', v') -> terms_from ls ts'.
+Proof.
+  induction ts as [|[c l] t IH]; intros v ts' v' H E.
+  - cbn in E. inversion E; subst. intros x [].
+  - cbn [norm_coeffs] in E. destruct (norm_coeffs t v) as [t1 v1] eqn:E1.
+    assert (Ht : terms_from ls t) by (intros x Hx; apply H; now right).
+    specialize (IH v t1 v1 Ht E1).
+    assert (Hl : In l ls \/ In (- l) ls) by (apply (H (c, l)); now left).
+    destruct (c <? 0); inversion E; subst; intros x [<-|Hx]; cbn [snd]; auto.
+    rewrite Z.opp_involutive. tauto.
+Qed.
+
+Lemma normalize_from ls c : terms_from ls (pb_terms c) -> terms_from ls (pb_terms (normalize_opb c)).
+Proof.
+  destruct c as [ts o v]. cbn [pb_terms]. intros H. unfold normalize_opb. cbn [pb_op pb_deg pb_terms].
+  assert (Hneg : terms_from ls (map (fun cl : Z * Z => (- fst cl, snd cl)) ts)).
+  { intros x Hx. apply in_map_iff in Hx as [y [<- Hy]]. cbn [snd]. now apply H. }
+  destruct o; cbn [pb_op pb_terms pb_deg];
+    match goal with |- context [norm_coeffs ?t ?w] => destruct (norm_coeffs t w) as [t3 v3] eqn:E end;
+    cbn [pb_terms]; (eapply norm_coeffs_from; [|exact E]; assumption).
+Qed.
+
+Lemma unit_terms_from ls : terms_from ls (unit_terms ls).
+Proof. intros t Ht. unfold unit_terms in Ht. apply in_map_iff in Ht as [l [<- Hl]]. now left. Qed.
+
+Definition opb_from (ls : list Z) (F : list pbc) : Prop := forall c, In c F -> terms_from ls (pb_terms c).
+
+Lemma opb_clause_from ls c : from_lits ls c -> terms_from ls (pb_terms (opb_clause c)).
+Proof. intros H t Ht. cbn in Ht. apply in_map_iff in Ht as [l [<- Hl]]. cbn [snd]. now apply H. Qed.
+
+Lemma opb_linear_from ls o k : opb_from ls (opb_linear ls o k).
+Proof.
+  destruct o; cbn [opb_linear]; try (intros c [<-|[]]; apply normalize_from; cbn [pb_terms]; apply unit_terms_from).
+  intros c Hc. apply in_map_iff in Hc as [d [<- Hd]]. apply opb_clause_from. now apply (add_neq_from ls k).
+Qed.
+
+Lemma ir_opb_from i : opb_from (ir_lits i) (ir_opb i).
+Proof.
+  destruct i; cbn [ir_opb ir_lits].
+  - intros d [<-|[]]. apply opb_clause_from, from_lits_incl, incl_refl.
+  - apply opb_linear_from.
+  - intros c Hc. unfold opb_parity in Hc. apply in_map_iff in Hc as [d [<- Hd]]. apply opb_clause_from. unfold add_parity in Hd. now apply (parity_clauses_from ls (constant =? 1) d).
+  - apply opb_linear_from.
+  - apply opb_linear_from.
+  - apply opb_linear_from.
+  - apply opb_linear_from.
+Qed.
+
+Theorem to_opb_in_range n l : irs_ok l = true -> irs_max_var l <= n -> opb_in_range n (to_opb l) = true.
+Proof.
+  intros Hok Hmax. unfold opb_in_range. apply forallb_forall. intros c Hc. apply forallb_forall. intros t Ht.
+  unfold to_opb in Hc. apply in_flat_map in Hc as [i [Hi Hc]].
+  unfold irs_ok in Hok. rewrite forallb_forall in Hok. specialize (Hok i Hi). unfold ir_ok in Hok.
+  pose proof (irs_max_var_ge l i Hi) as Hm.
+  destruct (ir_opb_from i c Hc t Ht) as [E|E].
+  - pose proof (lits_ok_in _ _ Hok E). pose proof (max_var_clause_ge _ _ E).
+    apply andb_true_iff. split; [now apply nonzero_spec|]. lia.
+  - pose proof (lits_ok_in _ _ Hok E). pose proof (max_var_clause_ge _ _ E).
+    apply andb_true_iff. split; [apply nonzero_spec; lia|]. lia.
+Qed.
